@@ -93,6 +93,7 @@ type Logger struct {
 	seq    int64
 	ginfo  map[int64]*gInfo
 	gate   func(l *Logger, e *Ev) // called for want / rel events WITHOUT l.mu held; may block
+	onAcq  func(e *Ev)            // called after an acq was logged, WITHOUT l.mu held
 	maxEvs int
 	full   int32
 }
@@ -147,6 +148,9 @@ func (l *Logger) Hook(op string, owner interface{}, mu interface{}, field, site 
 		atomic.StoreInt32(&l.full, 1)
 	}
 	l.mu.Unlock()
+	if l.onAcq != nil && (op == "acq" || op == "racq") {
+		l.onAcq(&e)
+	}
 }
 
 func (l *Logger) Full() bool { return atomic.LoadInt32(&l.full) != 0 }
